@@ -325,7 +325,7 @@ package unmarshal
 //@   modifies mapof(*res)
 //@   at initAttributesMap nested-map-keeps-path: arg1 == prefix + key + "."
 //@   at writeAttrValue list-element-keeps-path: arg2 == prefix + key + "."
-//@   at writeAttrValue list-element-is-its-value: !typeis(arg1, "*go.opentelemetry.io/proto/otlp/common/v1.AnyValue")
+//@   at writeAttrValue list-element-is-its-value: arg1 == _val.Value
 //@   loop 1:
 //@     modifies mapof(*res)
 //@   replay:
